@@ -122,6 +122,66 @@ single fold differs from PyWavelets' periodization -/
 example : afb1dOne .periodization ([1, 2, 3, 4] : List Int).reverse [1, 2]
     ≠ some (Spec.dwt .periodization [1, 2, 3, 4] [1, 2]) := by decide
 
+/-- reflect: torch's single-fold `F.pad(reflect)` index agrees with PyWavelets' periodic whole-sample
+reflection on the range it is allowed to address -/
+theorem reflIdx_eq_reflIdxP (n i : Int) (hn : 2 ≤ n) (h0 : -n < i) (h1 : i < 2*n - 1) :
+    reflIdx n i = reflIdxP n i := by
+  unfold reflIdx reflIdxP
+  have hn1 : ¬ (n ≤ 1) := by omega
+  simp only [hn1, if_false]
+  by_cases hneg : i < 0
+  · simp only [hneg, if_true]
+    have e : i % (2*n - 2) = i + (2*n - 2) := by
+      rw [← Int.add_emod_right]; exact Int.emod_eq_of_lt (by omega) (by omega)
+    rw [e]; split <;> omega
+  · simp only [hneg, if_false]
+    by_cases hge : n ≤ i
+    · simp only [hge, if_true]
+      by_cases hlt : i < 2*n - 2
+      · have e : i % (2*n - 2) = i := Int.emod_eq_of_lt (by omega) hlt
+        rw [e]; split <;> omega
+      · have hi : i = 2*n - 2 := by omega
+        have e : i % (2*n - 2) = 0 := by rw [hi]; exact Int.emod_self
+        rw [e]; split <;> omega
+    · simp only [hge, if_false]
+      have e : i % (2*n - 2) = i := Int.emod_eq_of_lt (by omega) (by omega)
+      rw [e]; split <;> omega
+
+theorem padIdx_congr (idx1 idx2 : Int → Int → Int) (x : List R) (l r : Nat)
+    (h : ∀ i : Int, -(l:Int) ≤ i → i < x.length + r → idx1 x.length i = idx2 x.length i) :
+    padIdx idx1 x l r = padIdx idx2 x l r := by
+  unfold padIdx
+  apply tab_ext rfl
+  intro i hi
+  rw [h _ (by omega) (by push_cast at hi ⊢; omega)]
+
+/-- reflect mode: whenever `afb1d` returns (the pads are smaller than the signal) it returns PyWavelets'
+reflect-mode coefficients; it raises exactly when a pad is not smaller than the signal — "may raise,
+never different numbers". -/
+theorem afb1dOne_reflect (h x : List R) (hL : 2 ≤ h.length) (hN : 2 ≤ x.length) :
+    (padTotal x.length h.length / 2 < x.length ∧ (padTotal x.length h.length + 1) / 2 < x.length →
+      afb1dOne .reflect h.reverse x = some (Spec.dwt .reflect h x)) ∧
+    (¬ (padTotal x.length h.length / 2 < x.length ∧ (padTotal x.length h.length + 1) / 2 < x.length) →
+      afb1dOne .reflect h.reverse x = none) := by
+  have hg : ¬ (h.length < 2 ∨ x.length < 1) := by omega
+  constructor
+  · intro hp
+    have hp2 := hp
+    unfold padTotal at hp2
+    simp only [afb1dOne, Spec.dwt, List.length_reverse]
+    rw [if_neg hg, if_pos hp2]
+    congr 1
+    have key := afb_idx_eq reflIdxP h x hL (by omega)
+    unfold padTotal at key
+    rw [padIdx_congr reflIdx reflIdxP x _ _ (fun i hi0 hi1 =>
+      reflIdx_eq_reflIdxP x.length i (by omega) (by omega) (by omega))]
+    exact key
+  · intro hp
+    have hp2 := hp
+    unfold padTotal at hp2
+    simp only [afb1dOne, List.length_reverse]
+    rw [if_neg hg, if_neg hp2]
+
 /-- a mode in which `afb1d` provably computes the PyWavelets formula for every signal and filter -/
 def ModeOK (mode : Mode) : Prop :=
   ∀ (h x : List R), 2 ≤ h.length → 1 ≤ x.length → afb1dOne mode h.reverse x = some (Spec.dwt mode h x)
@@ -164,6 +224,116 @@ theorem AFB2D_forward_eq_dwt2 (mode : Mode) (hm : ModeOK (R := R) mode) (c0 c1 r
   rw [afb1dT_two, alongO_H_total mode hm c0 hc0 _ hlo, alongO_H_total mode hm c1 hc1 _ hlo,
     alongO_H_total mode hm c0 hc0 _ hhi, alongO_H_total mode hm c1 hc1 _ hhi]
   simp [Spec.dwt2, tab, List.range, List.range.loop]
+
+theorem modeOK_of (mode : Mode) (hm : mode = .zero ∨ mode = .symmetric ∨ mode = .periodic) : ModeOK (R := R) mode := by
+  rcases hm with rfl | rfl | rfl
+  · exact modeOK_zero
+  · exact modeOK_symmetric
+  · exact modeOK_periodic
+
+theorem dwt_length (mode : Mode) (hm : mode = .zero ∨ mode = .symmetric ∨ mode = .periodic) (h x : List R) :
+    (Spec.dwt mode h x).length = dwtCoeffLen x.length h.length := by
+  rcases hm with rfl | rfl | rfl <;> simp [Spec.dwt]
+
+/-- `AFB1D.forward` on one channel: `(x0, x1) = (dwt h0 x, dwt h1 x)` — the `lohi[:, ::2]`, `lohi[:, 1::2]`
+split of the grouped convolution's output -/
+theorem AFB1D_forward_single (mode : Mode) (hm : ModeOK (R := R) mode) (h0 h1 x : List R)
+    (hL0 : 2 ≤ h0.length) (hL1 : 2 ≤ h1.length) (hN : 1 ≤ x.length) :
+    AFB1D_forward mode h0.reverse h1.reverse [x] = some ([Spec.dwt mode h0 x], [Spec.dwt mode h1 x]) := by
+  unfold AFB1D_forward
+  simp only [List.map_cons, List.map_nil]
+  rw [afb1dT_one]
+  have e0 : alongO .W (afb1dOne mode h0.reverse) [x] = some [Spec.dwt mode h0 x] := by
+    simp [alongO, alongWO, hm h0 x hL0 hN]
+  have e1 : alongO .W (afb1dOne mode h1.reverse) [x] = some [Spec.dwt mode h1 x] := by
+    simp [alongO, alongWO, hm h1 x hL1 hN]
+  rw [e0, e1]
+  simp [tab, List.range, List.range.loop]
+
+/-- the J-level 1-D transform of one channel is PyWavelets' `wavedec` in the library's order
+(finest detail first), **for every J**, every signal length ≥ 1 and every filter length ≥ 2,
+in the modes zero / symmetric / periodic — by induction on J. -/
+theorem DWT1DForward_eq_wavedec (mode : Mode) (hm : mode = .zero ∨ mode = .symmetric ∨ mode = .periodic)
+    (h0 h1 : List R) (hL0 : 2 ≤ h0.length) (hL1 : 2 ≤ h1.length) (J : Nat) (x : List R) (hN : 1 ≤ x.length) :
+    DWT1DForwardM mode J h0 h1 [x]
+      = some ([(Spec.wavedec mode h0 h1 J x).1], (Spec.wavedec mode h0 h1 J x).2.map fun d => [d]) := by
+  unfold DWT1DForwardM
+  induction J generalizing x with
+  | zero => simp [DWT1DForward, Spec.wavedec]
+  | succ J ih =>
+    have hlen : 1 ≤ (Spec.dwt mode h0 x).length := by
+      rw [dwt_length mode hm]; unfold dwtCoeffLen; omega
+    simp only [DWT1DForward, Spec.wavedec]
+    rw [AFB1D_forward_single mode (modeOK_of mode hm) h0 h1 x hL0 hL1 hN]
+    simp only [Option.bind_eq_bind, Option.bind_some]
+    rw [ih (Spec.dwt mode h0 x) hlen]
+    simp
+
+/-- a non-empty image all of whose rows are non-empty -/
+def NonEmptyImg (x : Img R) : Prop := 1 ≤ x.length ∧ ∀ r ∈ x, 1 ≤ r.length
+
+omit [CommRing R] in
+theorem tr_nonempty [OfNat R 0] (y : Img R) (hy : 1 ≤ y.length) (hw : 1 ≤ y.width) : NonEmptyImg (tr y) := by
+  constructor
+  · simp [tr, tab2]; exact hw
+  · intro r hr
+    unfold tr tab2 tab at hr
+    simp at hr
+    obtain ⟨i, _, rfl⟩ := hr
+    simp; exact hy
+
+theorem width_of_nonempty (x : Img R) (hx : NonEmptyImg x) : 1 ≤ x.width := by
+  obtain ⟨h1, h2⟩ := hx
+  unfold Img.width
+  cases x with
+  | nil => simp at h1
+  | cons r rs => simpa using h2 r (by simp)
+
+/-- the approximation band of `dwt2` is again a non-empty image (so the level loop can continue) -/
+theorem dwt2_cA_nonempty (mode : Mode) (hm : mode = .zero ∨ mode = .symmetric ∨ mode = .periodic)
+    (c0 r0 : List R) (hc0 : 2 ≤ c0.length) (hr0 : 2 ≤ r0.length) (x : Img R) (hx : NonEmptyImg x) :
+    NonEmptyImg (Spec.colsMap (Spec.dwt mode c0) (Spec.rowsMap (Spec.dwt mode r0) x)) := by
+  obtain ⟨hH, hW⟩ := hx
+  set lo := Spec.rowsMap (Spec.dwt mode r0) x with hlo
+  have hlo_len : lo.length = x.length := by simp [hlo, Spec.rowsMap]
+  have hlo_rows : ∀ r ∈ lo, 1 ≤ r.length := by
+    intro r hr
+    simp only [hlo, Spec.rowsMap, List.mem_map] at hr
+    obtain ⟨a, ha, rfl⟩ := hr
+    rw [dwt_length mode hm]; unfold dwtCoeffLen; have := hW a ha; omega
+  have hlo_ne : NonEmptyImg lo := ⟨by omega, hlo_rows⟩
+  have htr : NonEmptyImg (tr lo) := tr_nonempty lo (by omega) (width_of_nonempty lo hlo_ne)
+  unfold Spec.colsMap
+  apply tr_nonempty
+  · simp; exact htr.1
+  · apply width_of_nonempty
+    constructor
+    · simp; exact htr.1
+    · intro r hr
+      simp only [List.mem_map] at hr
+      obtain ⟨a, ha, rfl⟩ := hr
+      rw [dwt_length mode hm]; unfold dwtCoeffLen; have := htr.2 a ha; omega
+
+/-- the J-level 2-D transform of one channel is PyWavelets' `wavedec2` with (column wavelet, row wavelet),
+levels finest first, bands (cH, cV, cD) — **for every J**, every non-empty image and all filter lengths
+≥ 2, in the modes zero / symmetric / periodic. -/
+theorem DWTForward_eq_wavedec2 (mode : Mode) (hm : mode = .zero ∨ mode = .symmetric ∨ mode = .periodic)
+    (c0 c1 r0 r1 : List R) (hc0 : 2 ≤ c0.length) (hc1 : 2 ≤ c1.length) (hr0 : 2 ≤ r0.length) (hr1 : 2 ≤ r1.length)
+    (J : Nat) (x : Img R) (hx : NonEmptyImg x) :
+    DWTForwardM mode J [c0, c1, r0, r1] [x]
+      = some ([(Spec.wavedec2 mode c0 c1 r0 r1 J x).1], (Spec.wavedec2 mode c0 c1 r0 r1 J x).2.map fun d => [d]) := by
+  simp only [DWTForwardM, wave4, Option.bind_eq_bind, Option.bind_some]
+  induction J generalizing x with
+  | zero => simp [DWTForward, Spec.wavedec2]
+  | succ J ih =>
+    simp only [DWTForward, Spec.wavedec2]
+    rw [AFB2D_forward_eq_dwt2 mode (modeOK_of mode hm) c0 c1 r0 r1 hc0 hc1 hr0 hr1 x hx.1 hx.2]
+    simp only [Option.bind_eq_bind, Option.bind_some]
+    have hnext : NonEmptyImg (Spec.dwt2 mode c0 c1 r0 r1 x).1 := by
+      simp only [Spec.dwt2]
+      exact dwt2_cA_nonempty mode hm c0 r0 hc0 hr0 x hx
+    rw [ih _ hnext]
+    simp [Spec.dwt2]
 
 /-- non-vacuity: a 2×3 integer image and Haar-like integer filters meet every hypothesis -/
 example : (1 ≤ ([[1,2,3],[4,5,6]] : Img Int).length) ∧ (∀ r ∈ ([[1,2,3],[4,5,6]] : Img Int), 1 ≤ r.length) := by
